@@ -7,6 +7,7 @@ import (
 	"os"
 	"path/filepath"
 	"strconv"
+	"testing"
 
 	"vh/dict"
 	"vh/fw"
@@ -74,6 +75,16 @@ func main() {
 		}
 	}
 	if *worker {
+		if p.VirtualTime {
+			// the worker loop runs as the body of a test function, which gives it the *testing.T that
+			// testing/synctest asks for (the "PASS" line the testing package prints at the end is ignored upstream)
+			testing.Main(func(pat, str string) (bool, error) { return true, nil },
+				[]testing.InternalTest{{Name: "Worker", F: func(t *testing.T) {
+					fw.T = t
+					fw.RunWorker(p, *tier, seed, *start, *stride, *n, *hash, os.Stdout)
+				}}}, nil, nil)
+			return
+		}
 		fw.RunWorker(p, *tier, seed, *start, *stride, *n, *hash, os.Stdout)
 		return
 	}
@@ -81,6 +92,13 @@ func main() {
 		os.Exit(fw.RunWitnessChild(p, *witness, os.Stdout))
 	}
 	if *replay != "" {
+		if p.VirtualTime {
+			testing.Main(func(pat, str string) (bool, error) { return true, nil },
+				[]testing.InternalTest{{Name: "Replay", F: func(t *testing.T) {
+					fw.T = t
+					os.Exit(fw.Replay(p, *replay, os.Stdout))
+				}}}, nil, nil)
+		}
 		os.Exit(fw.Replay(p, *replay, os.Stdout))
 	}
 	self, err := os.Executable()
